@@ -212,6 +212,15 @@ class Walker:
                     elif not nonneg(x):
                         return True
             if op == "!=":
+                # x != c tightens a bound that already touches c
+                a, b2 = self.lin(l, st), self.lin(r, st)
+                if a is not None and b2 is not None and not (cl or cr):
+                    d = L.sub(a, b2)
+                    neg = ({k: -v for k, v in d[0].items()}, -d[1])
+                    if self.implied(st, neg):          # l <= r
+                        return self.add_cmp(st, l, "<", r)
+                    if self.implied(st, d):            # l >= r
+                        return self.add_cmp(st, l, ">", r)
                 return True
             return self.add_cmp(st, l, op, r)
         v = cval(c)
